@@ -31,101 +31,129 @@ LEAN_MODULES = ["LenaModel.Props.C15", "LenaModel.Props.C15Key"]
 LEAN_SOURCES = ["LenaModel/Model/C15.lean", "LenaModel/Model/C15Spec.lean", "LenaModel/Model/C15Key.lean",
                 "LenaModel/Lemmas/C15.lean", "LenaModel/Props/C15.lean", "LenaModel/Props/C15Key.lean"]
 DRIVER = "drivers/C15.lean"
+# the theorems that carry the property: each is about the transcribed model (Model/C15.lean)
 THEOREMS = [
     # Part 1: selectors, SelectContext, Filter, RunIf
     "Lena.C15.selector_compositional",
-    "Lena.C15.sem_list_tuple",
     "Lena.C15.selector_init_error",
     "Lena.C15.selector_absorbs_errors",
     "Lena.C15.selector_total_leaves",
-    "Lena.C15.semB_list_tuple_not",
-    "Lena.C15.not_sem",
-    "Lena.C15.not_of_absorbing",
-    "Lena.C15.not_not_sem",
     "Lena.C15.contains_spec",
     "Lena.C15.select_context_absent_false",
     "Lena.C15.select_context_present",
-    "Lena.C15.select_context_bad_key",
     "Lena.C15.filter_stops_at_first_error",
     "Lena.C15.filter_keeps_selected",
+    "Lena.C15.fill_into_spec",
     "Lena.C15.filter_seq_eq_and",
     "Lena.C15.filter_seq_eq_stages",
     "Lena.C15.runif_spec",
     # Part 2: include/exclude trees
     "Lena.C15.make_fuel_suffices",
-    "Lena.C15.sel_eq_polarity",
-    "Lena.C15.mem_prefixesDesc",
-    "Lena.C15.polarity_spec",
     "Lena.C15.iet_get_is_longest_prefix",
     "Lena.C15.make_include_exclude_tree_get",
     "Lena.C15.iet_get_general",
-    "Lena.C15.selC_eq_flipWalk",
-    "Lena.C15.selC_snoc",
-    "Lena.C15.selC_eq_polarity_of_disjoint",
-    "Lena.C15.overlap_rule",
     "Lena.C15.make_rejects_iff",
     "Lena.C15.make_accepts_iff",
     "Lena.C15.make_include_exclude_tree_rejects_iff",
-    "Lena.C15.rejectsB_iff",
-    "Lena.C15.disjointB_iff",
-    "Lena.C15.agreeOnB_iff",
-    "Lena.C15.wfV_iff",
-    "Lena.C15.startsWith_iff",
-    "Lena.C15.keep_leaf_paths",
-    "Lena.C15.same_key_iff_agree",
     # Part 3: GroupBy
     "Lena.C15.groupby_partition",
     "Lena.C15.groupby_groups_perm",
     "Lena.C15.groupby_default_one_group",
     "Lena.C15.groupby_share_iff_agree",
+    "Lena.C15.groupby_groups_iff_agree",
+    "Lena.C15.groupby_skip_partition",
     "Lena.C15.groupby_fill_raises_iff",
-    "Lena.C15.groupby_init_type_error",
     "Lena.C15.old_groupby_partition",
     "Lena.C15.old_groupby_first_error",
-    # the group key and to_string (C08's model of json.dumps)
+    # the group key and to_string (C08's token model of json.dumps)
     "Lena.C15.group_key_to_string",
+]
+# readings of the specification-side definitions (they do not mention the model), encoding lemmas and statements that
+# are true by the definition of the model: audited, not counted as proof obligations of the property
+AUX_THEOREMS = [
+    "Lena.C15.sem_list_tuple",
+    "Lena.C15.semB_list_tuple_not",
+    "Lena.C15.not_sem",
+    "Lena.C15.not_of_absorbing",
+    "Lena.C15.not_not_sem",
+    "Lena.C15.select_context_bad_key",
+    "Lena.C15.sel_eq_polarity",
+    "Lena.C15.mem_prefixesDesc",
+    "Lena.C15.polarity_spec",
+    "Lena.C15.selC_eq_flipWalk",
+    "Lena.C15.selC_snoc",
+    "Lena.C15.selC_eq_polarity_of_disjoint",
+    "Lena.C15.overlap_rule",
+    "Lena.C15.rejectsB_iff",
+    "Lena.C15.disjointB_iff",
+    "Lena.C15.agreeOnB_iff",
+    "Lena.C15.wfV_iff",
+    "Lena.C15.idxPath_inj",
+    "Lena.C15.keep_leaf_paths",
+    "Lena.C15.same_key_iff_agree",
+    "Lena.C15.startsWith_iff",
+    "Lena.C15.groupby_init_type_error",
 ]
 TRUSTED = [
     "Lean 4.33.0 kernel; axioms limited to propext, Classical.choice, Quot.sound (audited by #print axioms on every run)",
     "hand transcription of lena/flow/selectors.py, filter.py, group_by.py (GroupBy and _GroupBy), RunIf (elements.py), "
     "lena/context/include_exclude_tree.py and of contains/get_recursively (lena/context/functions.py) into "
-    "LenaModel/Model/C15.lean, validated by this correspondence check",
-    "dictionaries as slot vectors over the key alphabet of the case (DESIGN.md section 2): iteration order of dict.items() and "
-    "of the set of starting prefixes is abstracted (it only decides which of several LenaValueErrors is raised first)",
-    "the model uses the selected sub-context itself as the group key, the code its to_string: group_key_to_string proves "
-    "(with C08's to_string_inj on C08's token model of json.dumps, whose spelling of scalars is C08's assumption) that "
-    "the two keyings coincide; the driver renders every group key with C08's to_string and the harness compares it "
-    "with the real key string",
+    "LenaModel/Model/C15.lean, validated by this correspondence check on the generated cases",
+    "dictionaries as slot vectors over the key alphabet of the case (DESIGN.md section 2): the iteration order of "
+    "dict.items() and of the set of starting prefixes is abstracted, dict subclasses are dictionaries; the check builds "
+    "every generated context in one of three insertion orders and about half of the dictionaries as instances of a dict "
+    "subclass, and fills the same logical context in different orders into one GroupBy",
+    "the model keys the groups by the selected sub-context, the code by its to_string: group_key_to_string proves that the "
+    "two keyings coincide at the level of C08's token model of json.dumps(sort_keys=True) (C08's to_string_inj); that "
+    "json.dumps spells different keys and scalars differently (Tok.spell, characters that JSON escapes) is C08's "
+    "assumption and is not exercised here (generated keys and strings contain no such character); the driver renders "
+    "every group key with C08's to_string and the harness compares it with the real key string",
     "JSON line protocol encoders (harness/props/c15.py, drivers/C15.lean)",
 ]
 ASSUMPTIONS = [
-    "leaves of a specification are predicates with outcome True / False / raise (callables returning non-booleans are outside "
-    "the model: Selector returns what the callable returns)",
-    "contexts are built from None, bool, int, str, objects json cannot encode, and string-keyed dictionaries; agreement of two "
-    "contexts on a key path is type-strict (True and 1 differ, as they do for to_string)",
-    "the partition oracle speaks about key sets in which no path is listed in both group_by and merge (the property's "
-    "longest-prefix entry is then well defined); overlapping key sets are covered by the theorems iet_get_general / "
-    "overlap_rule and by the correspondence run (model and specification-side values against the implementation)",
-    "group_by and merge are strings, tuples of strings or non-iterables; SelectContext keys are strings, lists or dictionaries",
-    "keys returned by the callables of the deprecated _GroupBy are None, ints or strings (no bools: True == 1 would merge)",
-    "the sequence inside RunIf does not raise",
+    "a callable / predicate is modelled by the truth value of what it returns (True / False / raise): everything the "
+    "statement speaks about (list = OR, tuple = AND, Not, Filter, RunIf, SelectContext inside them) uses only the truth "
+    "value; that Selector.__call__ itself hands back the raw object is not modelled (the harness compares truth values; "
+    "callables returning 5, 0, '', 'x', None and the data itself are generated)",
+    "exceptions are instances of Exception (any class: ZeroDivisionError, TypeError, AttributeError, ValueError, "
+    "RuntimeError, AssertionError, KeyError, OSError, LenaKeyError, a user-defined class, StopIteration - with its "
+    "conversion to RuntimeError inside the generator expressions of And/Or/Filter.run and in RunIf.run, PEP 479, which the "
+    "model transcribes); BaseExceptions that are no Exceptions (KeyboardInterrupt, SystemExit, GeneratorExit) pass through "
+    "`except Exception` by design and are outside the statement and the model",
+    "contexts are built from None, bool, int, str, objects json cannot encode, and string-keyed dictionaries (plain or of a "
+    "subclass); floats, lists and tuples as context values are not generated (lena treats them as opaque JSON values); "
+    "agreement of two contexts on a key path is type-strict (True and 1 differ, as they do for to_string)",
+    "the key alphabet `names` of a case contains every sub-key of group_by / merge and of the specifications (hypothesis "
+    "KeysKnown of the string-level theorems; the harness always sends the full alphabet): unknown sub-keys would all become "
+    "one index (an example in Props/C15.lean shows the model accepting a key set the code rejects over too small an alphabet)",
+    "the partition oracle speaks about accepted key sets with the root in exactly one of group_by / merge and no path "
+    "listed in both (the property's longest-prefix entry is then defined for every path); which key sets are accepted, "
+    "the exception classes at construction, LenaValueError of fill for an unserialisable selected object, reset/clear "
+    "leaving no groups, the order in which groups are yielded: documented behaviour outside the statement, compared "
+    "with the model in the correspondence (theorems make_rejects_iff, groupby_fill_raises_iff, groupby_partition), not "
+    "demanded by the oracle; overlapping key sets are covered by iet_get_general / overlap_rule and the correspondence",
+    "group_by and merge are strings, tuples/lists of strings or non-iterables; SelectContext keys are strings, lists or "
+    "dictionaries; keys returned by the callables of the deprecated _GroupBy are None, ints or strings (no bools: True == 1 "
+    "would merge); the sequence inside RunIf does not raise; __eq__/__repr__ of the classes are not modelled",
 ]
-RULE = ("select: exhaustive specifications of depth <= 2 over 4 leaves (string, class, total and raising callable) with lists/"
-        "tuples of 1-2 items and Not with both raise_on_error values, all depth <= 1 specifications over 9 leaves, x both "
-        "raise_on_error x 12 values, as Selector and as Filter; all Not-chains of depth <= 3 x all raise_on_error combinations over "
-        "9 inner selectors (raising, total, partial; bare and wrapped in Selector with either raise_on_error), also inside lists; "
-        "SelectContext over 19 key forms (dotted strings, lists, one-key dictionaries, malformed keys) x 6 predicates; seeded "
-        "random specifications of depth <= 3 (quick 1800, thorough 100000) with Selector/And/Or/Not/SelectContext instances, bad "
-        "items, random contexts (present-but-falsy sub-contexts, unserialisable objects). filterseq: all pairs of 9 leaves + "
-        "sampled (quick 300, thorough 8000); runif: 13 selectors x 4 sequences + sampled (quick 200, thorough 5000). groupby: "
-        "every assignment of the 6 paths of depth <= 2 over {a,b} to group_by/merge/neither x both roots (1458 key sets) x all "
-        "361 contexts of depth <= 2 over {a,b} with leaves {1,2} and {}; every assignment of those 6 paths to "
-        "group_by/merge/both/neither (overlaps, 8192 key sets; quick: a seeded sample of 900) x 40 contexts; seeded random key "
-        "sets over {a,b,c} up to depth 3 with random contexts up to depth 3 (quick 700, thorough 40000), overlapping and "
-        "improper key sets, all 169 combinations of 13 spellings of the arguments (strings, tuples, lists, empty containers), callables, update/clear aliases, unserialisable objects. oldgroupby: "
-        "all singles, pairs and sampled triples of 6 callables x random flows. contains: 16 strings x 120 contexts; "
-        "_split_key and _startswith on small exhaustive sets. Non-trivial: select - a value is selected and another is not, "
-        "or an exception; groupby - at least two groups and a group with two values, or a construction error.")
+RULE = ("Keys 'a', 'ab' (one a string prefix of the other), 'b'; every context built in one of three insertion orders, about "
+        "half of the dictionaries as instances of a dict subclass. select: specifications of depth <= 2 over 4 leaves (quick: a "
+        "seeded half of the 5832 two-level ones, thorough: all) and all of depth <= 1 over 9 leaves, x both raise_on_error x 12 "
+        "values (rotated per case), as Selector and as Filter; 14 further leaves (8 exception classes incl. AttributeError, "
+        "KeyError, a user-defined class, StopIteration; 6 results that are no bools) bare, in containers, under Not, in "
+        "instances; all Not-chains of depth <= 3 x all raise_on_error combinations over 9 inner selectors; SelectContext "
+        "over 19 key forms x 10 predicates; seeded random specifications of depth <= 3 (quick 1800, thorough 100000). "
+        "filterseq: all pairs of 11 leaves + sampled (quick 300, thorough 8000); runif: 15 selectors x 4 sequences + sampled "
+        "(quick 200, thorough 5000). groupby: every assignment of the 6 paths of depth <= 2 over {a,ab} to "
+        "group_by/merge/neither x both roots (1458 key sets) x all 361 contexts of depth <= 2 with leaves {1,2,{}}; the "
+        "same key sets (quick: 300 of them) x 81 contexts with false and type-confusable leaves {0, False, None, '', {}, 1, "
+        "True, '1', absent}; every assignment to group_by/merge/both/neither (overlaps, 8192 key sets; quick: 800) x 40 "
+        "contexts; all 169 combinations of 13 spellings of the arguments (strings, tuples, lists, empty containers) with "
+        "equal contexts in different insertion orders; seeded random key sets over {a,ab,b} up to depth 3 with random "
+        "contexts (repeated in other orders; quick 700, thorough 40000), callables, update/clear aliases, unserialisable "
+        "objects, re-use after reset. oldgroupby: singles, pairs, sampled triples of 6 callables x random flows. contains: 19 "
+        "strings x 169 contexts; _split_key, _startswith on small sets. Non-trivial: select - a value is selected and "
+        "another is not, or an exception; groupby - at least two groups and a group with two values, or a construction error.")
 CASE_TIMEOUT = 20
 
 
@@ -756,7 +784,7 @@ def _gen_groupby_special(ctx):
 def _gen_groupby_random(ctx, rng, n):
     for _ in range(n):
         g, m = _rand_keyset(rng)
-        k = rng.choice([2, 3, 4, 6, 8, 12, 16, 30])
+        k = rng.choice([2, 2, 3, 3, 4, 5, 6, 8, 12, 24])
         leaves = (1, 2, True, "1", None, 0, "", _U) if rng.random() < 0.2 else (1, 2, True, "1", None, 0, "")
         cs = [None if rng.random() < 0.03 else _rand_ctx(rng, _RKEYS, 3, leaves=leaves) for _ in range(k)]
         # the same logical context once more (it will be built with another insertion order)
@@ -814,20 +842,21 @@ def gen_cases(ctx):
     rng = ctx.rng
     quick = ctx.tier == "quick"
     r = [_sub(rng) for _ in range(10)]
-    gens = [
+    cheap = [
         _gen_small(ctx),
         _gen_select_special(ctx),
         _gen_groupby_special(ctx),
         _gen_old(ctx, r[0], 150 if quick else 4000),
         _gen_filterseq(ctx, r[1], 300 if quick else 8000),
         _gen_runif(ctx, r[2], 200 if quick else 5000),
-        _gen_groupby_overlap(ctx, r[3]),
         _gen_select_random(ctx, r[4], 1800 if quick else 100000),
         _gen_groupby_random(ctx, r[5], 700 if quick else 40000),
         _gen_select_exhaustive(ctx, r[6]),
-        _gen_groupby_exhaustive(ctx, r[7]),
     ]
-    return _round_robin(gens)
+    # cases with many contexts each come last: a quick run on a changed tree adds a sample of the first 150 000 cases of
+    # the thorough generator, which must stay cheap (the quick tier has these scopes itself)
+    heavy = [_gen_groupby_overlap(ctx, r[3]), _gen_groupby_exhaustive(ctx, r[7])]
+    return itertools.chain(_round_robin(cheap), _round_robin(heavy))
 
 
 # ---------------------------------------------------------------------------------------------
@@ -1483,14 +1512,17 @@ def _selected_view(G, M, c):
     return frozenset((p, view) for p, view in _nodes(c or {}) if _polarity(G, M, p))
 
 
-def _run_ref(exp, values, each):
-    """what a lazy element yields: `each(value, selected)` for the values before the first exception"""
+def _run_ref(exp, values, each, convert=True):
+    """what a lazy element yields: `each(value, selected)` for the values before the first exception (which reaches
+    the consumer of a generator as RuntimeError when it is a StopIteration: PEP 479)"""
     kept, stop = [], None
     for v, b in zip(values, exp):
         if isinstance(b, dict):
             stop = b["e"]
+            if convert and stop == "Other:StopIteration":
+                stop = "Other:RuntimeError"
             break
-        kept.extend(each(v, b))
+        kept.extend(each({"d": v["d"], "c": v["c"]}, b))
     return kept, stop
 
 
@@ -1528,15 +1560,13 @@ def _oracle(case, res):
     op = case["op"]
     if op == "select":
         spec = case["spec"]
-        if "init" in res:
-            if not _has_bad(spec):
-                return (f"construction raised {res['init']} for a specification made of strings, classes, callables, "
-                        f"selectors, lists and tuples: {jdump(spec)}")
-            if res["init"] != "LenaTypeError":
-                return f"construction raised {res['init']}, not LenaTypeError, for {jdump(spec)}"
-            return None
+        # the statement covers specifications made of strings, classes, callables, lists, tuples and selectors; what
+        # happens with an item of another type (LenaTypeError, documented) is compared in the correspondence only
         if _has_bad(spec):
-            return "a specification with an item that is neither class, callable, string, list nor tuple was accepted"
+            return None
+        if "init" in res:
+            return (f"construction raised {res['init']} for a specification made of strings, classes, callables, "
+                    f"selectors, lists and tuples: {jdump(spec)}")
         roe = case["roe"]
         vals = [_value(v) for v in case["values"]]
         exp = []
@@ -1562,16 +1592,18 @@ def _oracle(case, res):
                     f"{jdump(kept)[:300]} stop={stop}")
         if jdump(res["filled"]) != jdump(exp):
             return f"Filter.fill_into filled {jdump(res['filled'])}, selected: {jdump(exp)}"
+        # a flow filled into one element through fill_into: the element holds exactly the selected values
+        fk, fs = _run_ref(exp, case["values"], lambda v, b: [v] if b else [], convert=False)
+        if jdump(res["fillAll"]["kept"]) != jdump(fk) or res["fillAll"]["stop"] != fs:
+            return (f"Filter.fill_into filled the element with {jdump(res['fillAll']['kept'])[:300]} stop={res['fillAll']['stop']}; "
+                    f"the selected values are {jdump(fk)[:300]} stop={fs}")
         return None
     if op in ("filterseq", "runif"):
         specs = [case["a"], case["b"]] if op == "filterseq" else [case["spec"]]
-        bad = any(_has_bad(s) for s in specs)
-        if "init" in res:
-            if not bad or res["init"] != "LenaTypeError":
-                return f"construction raised {res['init']} for {jdump(specs)}"
+        if any(_has_bad(s) for s in specs):
             return None
-        if bad:
-            return "a specification with an item that is neither class, callable, string, list nor tuple was accepted"
+        if "init" in res:
+            return f"construction raised {res['init']} for {jdump(specs)}"
         vals = [_value(v) for v in case["values"]]
         if op == "filterseq":
             # value by value: the first filter, then (if it passed) the second — the AND of the two
@@ -1592,78 +1624,77 @@ def _oracle(case, res):
                     f"run through the sequence and the others unchanged give {jdump(kept)[:300]} stop={stop}")
         return None
     if op == "contains":
-        exp = _ref_contains(_mk(case["ctx"]), case["s"])
+        exp = _ref_contains(_mk(case["ctx"], case.get("o", 0)), case["s"])
         if res["r"] != exp:
             return f"contains({jdump(case['ctx'])}, {case['s']!r}) is {res['r']}, the documented meaning gives {exp}"
         return None
     if op in ("splitkey", "startswith"):
-        if op == "startswith":
-            a, b = case["a"], case["b"]
-            if res["r"] != (b[:len(a)] == a):
-                return f"_startswith({a}, {b}) is {res['r']}"
-        return None
+        return None          # private helpers: compared with the model only
     if op == "oldgroupby":
         return _oracle_old(case, res)
-    # ---- groupby: the documented exception for the argument combinations the documentation rejects, the partition
-    # for the accepted ones
-    expected = _ref_gb_init(case)
+    # ---- groupby.  The property speaks about key sets accepted at construction: for those — whenever exactly one of
+    # group_by / merge lists the root "" and no path is listed in both, so that "the longest listed prefix" of every
+    # key path is defined — the groups must be the partition the statement describes.  Which key sets are accepted or
+    # rejected (improper nesting, a missing root, arguments of another type) is documented behaviour outside the
+    # statement: it is compared with the model in the correspondence (compare / _compare_gb_init), not demanded here.
     if "init" in res:
-        if expected is None:
-            return (f"GroupBy({case['group_by']!r}, {case['merge']!r}) raised {res['init']} at construction although exactly one "
-                    f"argument lists the root and the key sets are properly nested")
-        if res["init"] != expected:
-            return f"GroupBy({case['group_by']!r}, {case['merge']!r}) raised {res['init']} at construction, documented: {expected}"
         return None
-    if expected is not None:
-        return (f"GroupBy({case['group_by']!r}, {case['merge']!r}) was accepted; the documentation demands {expected} (the root \"\" "
-                f"in exactly one of group_by and merge, proper subkeys, group_by/merge keys strictly within merge/group_by keys)")
+    if _arg_items(case["group_by"]) is None or _arg_items(case["merge"]) is None:
+        return None
     if "broken" in res:
         return f"GroupBy({case['group_by']!r}, {case['merge']!r}): {res['broken']}"
-    if res["after"] is None or res["after"] or res["reuse"] != res["groups"]:
-        return (f"GroupBy({case['group_by']!r}, {case['merge']!r}) after reset()/clear(): groups {res['after']}; filled again with the "
-                f"same values: {res['reuse']}, the first time: {res['groups']}")
     G, M = _gm(case)
-    if G & M:
-        return None          # excluded by hypothesis: a path listed in both has no longest-prefix entry
+    if (() in G) + (() in M) != 1 or (G & M):
+        return None          # no root, two roots, or a path listed in both: no well-defined longest-prefix entry
     cs = _contexts(case)
     views = [_selected_view(G, M, c) for c in cs]
     unser = {i for i, v in enumerate(views) if any(view[:2] == ("leaf", "obj") for _, view in v)}
     raised = {e["at"] for e in res["errors"]}
     for e in res["errors"]:
-        if e["at"] not in unser or e["e"] != "LenaValueError":
-            return f"GroupBy.fill raised {e['e']} on context {jdump(_unmk(cs[e['at']]))}"
-    if unser - raised:
-        i = min(unser - raised)
-        return f"GroupBy.fill accepted the context {jdump(_unmk(cs[i]))} with an object json cannot encode at a selected key path"
-    groups = res["groups"]
+        if e["at"] not in unser:
+            return (f"GroupBy({case['group_by']!r}, {case['merge']!r}).fill raised {e['e']} on context {jdump(_unmk(cs[e['at']]))}: "
+                    f"the value was not filled")
+    what = f"GroupBy({case['group_by']!r}, {case['merge']!r})"
+    orders = [_order_of(case, i) for i in range(len(cs))]
+    if any(orders):
+        what += f" [contexts built with key insertion orders {orders if len(orders) <= 12 else '...'}: 0 sorted, 1 reversed, 2 rotated]"
+    msg = _partition_failure(what, cs, views, res["groups"], raised)
+    if msg:
+        return msg
+    if not res.get("intact", True):
+        return f"{what} does not yield the values it was filled with (a context was changed or replaced)"
+    # the same element used again after reset() / clear(): the property holds for the second flow too
+    if isinstance(res["reuse"], dict):
+        return f"{what} filled again after reset()/clear(): {res['reuse']['e']}"
+    return _partition_failure(what + " filled again after reset()/clear()", cs, views, res["reuse"], raised)
+
+
+def _partition_failure(what, cs, views, groups, raised):
+    """the statement: the groups partition the filled values; arrival order inside a group; two values share a group
+    exactly when their selected views are equal"""
     filled = [i for i in range(len(cs)) if i not in raised]
     flat = sorted(i for g in groups for i in g)
     if flat != filled:
-        return f"the groups {groups} are not a partition of the {len(filled)} filled values"
+        return f"{what}: the groups {groups} are not a partition of the {len(filled)} filled values"
     owner = {}
     for gi, g in enumerate(groups):
         if g != sorted(g):
-            return f"arrival order is not preserved inside the group {g}"
-        if not g:
-            return "an empty group was yielded"
+            return f"{what}: arrival order is not preserved inside the group {g}"
         for i in g:
             owner[i] = gi
     by_view = {}
     for i in filled:
         j = by_view.setdefault(views[i], i)
         if owner[i] != owner[j]:
-            return (f"GroupBy({case['group_by']!r}, {case['merge']!r}) separates {jdump(_unmk(cs[j]))} from {jdump(_unmk(cs[i]))} "
+            return (f"{what} separates {jdump(_unmk(cs[j]))} from {jdump(_unmk(cs[i]))} "
                     f"although they agree on every key path whose longest listed prefix is a group_by entry")
     first = {}
     for i in filled:
         j = first.setdefault(owner[i], i)
         if views[i] != views[j]:
             diff = sorted(views[i] ^ views[j], key=repr)[0]
-            return (f"GroupBy({case['group_by']!r}, {case['merge']!r}) puts {jdump(_unmk(cs[j]))} and {jdump(_unmk(cs[i]))} into one "
+            return (f"{what} puts {jdump(_unmk(cs[j]))} and {jdump(_unmk(cs[i]))} into one "
                     f"group although they differ at the selected key path {'.'.join(diff[0])}")
-    firsts = [g[0] for g in groups]
-    if firsts != sorted(firsts):
-        return f"the groups {groups} are not yielded in the order of first arrival"
     return None
 
 
@@ -1701,8 +1732,11 @@ def _oracle_old(case, res):
             keys.append(None)
             errs[i] = exc_name(e)
     got = {e["at"]: e["e"] for e in res["errors"]}
-    if got != errs:
-        return f"_GroupBy.fill raised {got}, expected {errs} for group_by={gbj} on {jdump(case['values'])}"
+    # a value whose key exists must be filled; which exception leaves fill() otherwise is compared with the model only
+    extra = sorted(set(got) - set(errs))
+    if extra:
+        return (f"_GroupBy.fill raised {got[extra[0]]} on value {jdump(case['values'][extra[0]])} although group_by={gbj} "
+                f"gives it a key")
     order, members = [], {}
     for i, k in enumerate(keys):
         if k is None:
@@ -1713,8 +1747,6 @@ def _oracle_old(case, res):
             order.append(k)
         members[kk].append(case["values"][i]["d"])
     exp = [members[jdump(k)] for k in order]
-    if res["after"]:
-        return f"_GroupBy holds {res['after']} groups after reset()/clear()"
     if jdump(res["groups"]) != jdump(exp) or jdump(res["keys"]) != jdump(order):
         return f"_GroupBy groups {jdump(res['groups'])} keys {jdump(res['keys'])}; by key and arrival: {jdump(exp)} keys {jdump(order)}"
     return None
@@ -1810,44 +1842,55 @@ def shrink(case):
     if op != "groupby":
         return
     cs = [_unmk(c) for c in _contexts(case)]
-    base = {k: v for k, v in case.items() if k != "ctxset"}
-    if len(cs) > 2:
+    os_ = [_order_of(case, i) for i in range(len(cs))]
+    base = {k: v for k, v in case.items() if k not in ("ctxset", "orders")}
+
+    def sub(idx):
+        return dict(base, contexts=[cs[i] for i in idx], orders=[os_[i] for i in idx])
+    n = len(cs)
+    if n > 2:
         # a wrong merge or a wrong separation is visible on two values
-        if len(cs) <= 60:
-            for i in range(len(cs)):
-                for j in range(i + 1, len(cs)):
-                    yield dict(base, contexts=[cs[i], cs[j]])
+        if n <= 60:
+            for i in range(n):
+                for j in range(i + 1, n):
+                    yield sub([i, j])
         else:
-            half = len(cs) // 2
-            yield dict(base, contexts=cs[:half])
-            yield dict(base, contexts=cs[half:])
-            for i in range(len(cs)):
-                yield dict(base, contexts=cs[:i] + cs[i + 1:])
-    elif len(cs) == 2:
-        yield dict(base, contexts=cs[:1])
-        yield dict(base, contexts=cs[1:])
+            half = n // 2
+            yield sub(range(half))
+            yield sub(range(half, n))
+            for i in range(n):
+                yield sub([j for j in range(n) if j != i])
+    elif n == 2:
+        yield sub([0])
+        yield sub([1])
+    if any(os_):
+        yield dict(base, contexts=cs, orders=[0] * n)
     for k in ("group_by", "merge"):
         a = case[k]
         if isinstance(a, list) and len(a) > 1:
             for i in range(len(a)):
-                yield dict(base, contexts=cs, **{k: a[:i] + a[i + 1:]})
+                yield dict(base, contexts=cs, orders=os_, **{k: a[:i] + a[i + 1:]})
 
 
 # ---- MANIFEST texts ------------------------------------------------------------------------
 LEVEL_TEXT = ("Lean 4 theorems about a transcribed model of Selector/And/Or/Not/SelectContext/Filter/RunIf (deep-embedded "
-              "specifications of any nesting depth, both raise_on_error settings, construction errors, malformed keys, two "
-              "filters in a sequence = one filter with And) and of make_include_exclude_tree + IncludeExcludeTree.get + GroupBy "
-              "(trees of any depth: get keeps exactly the paths selected by the rule the code implements for ALL accepted key "
-              "sets, which is the longest-listed-prefix rule when no path is listed twice; the rejected key sets are exactly the "
-              "improperly nested ones; two values share a group iff their contexts agree on every selected path; arrival order "
-              "preserved; fill raises exactly for an unserialisable object at a selected path) and of the deprecated _GroupBy, "
-              "tied to /repo by a correspondence check (exhaustive over depth-2 specifications, all Not-chains, all 1458 key sets "
-              "x 361 contexts and all overlapping key sets on a two-key alphabet, sampled beyond; the specification-side "
-              "definitions are executed by the driver and compared too) and a direct reference-evaluator / reference-partition "
-              "oracle on the real code.")
+              "specifications of any nesting depth, both raise_on_error settings, construction errors, malformed keys, "
+              "StopIteration becoming RuntimeError in generator expressions, fill_into with an explicit element, two filters "
+              "in a sequence = one filter with And) and of make_include_exclude_tree + IncludeExcludeTree.get + GroupBy (trees "
+              "of any depth: get keeps exactly the paths selected by the rule the code implements for ALL accepted key sets, "
+              "which is the longest-listed-prefix rule when no path is listed twice; the rejected key sets are exactly the "
+              "improperly nested ones; a value of the flow is in the same yielded group as another iff their contexts agree on "
+              "every selected path; arrival order preserved; fill raises exactly for an unserialisable object at a selected "
+              "path) and of the deprecated _GroupBy - 31 theorems about the model, 22 auxiliary ones about the specification "
+              "vocabulary - tied to /repo by a correspondence check (exhaustive small scopes, sampled beyond; contexts in "
+              "varying insertion orders and dict subclasses, keys that are string prefixes of each other, ten exception "
+              "classes, results that are no bools; the specification-side definitions are executed by the driver and compared "
+              "too) and a direct reference-evaluator / reference-partition oracle on the real code that states the property "
+              "only (documented behaviour outside the statement is compared with the model, not demanded).")
 LEVEL_NOTE = ("Trusted: Lean kernel (+ propext, Classical.choice, Quot.sound), the hand transcription validated by the "
-              "correspondence run, slot-vector dictionaries, injectivity of to_string on JSON contexts, the JSON protocol. "
-              "The partition oracle is silent on key sets that list a path in both group_by and merge (covered by theorems and "
-              "correspondence).")
+              "correspondence run, slot-vector dictionaries over a key alphabet that contains every listed sub-key, truth "
+              "values for callable results, the spelling of keys/scalars by json.dumps (C08's Tok.spell), the JSON protocol. "
+              "The partition oracle is silent on key sets that list a path in both group_by and merge or the root in none or "
+              "both (covered by theorems and correspondence).")
 TECHNIQUE = "Lean 4 proof over hand-written model + correspondence check (exhaustive small scopes, sampled deeper) + reference oracle"
 DESIGN_REF = "DESIGN.md section 3, C15"
